@@ -60,6 +60,10 @@ def seed_nodes(builder, seeds):
                     and st.targets[0].id in vars_:
                 want[id(st.value)] = vars_[st.targets[0].id]
                 found.add(st.targets[0].id)
+            elif isinstance(st, ast.Assign) and len(st.targets) == 1 and isinstance(st.targets[0], ast.Attribute) \
+                    and ast.unparse(st.targets[0]) in vars_:
+                want[id(st.value)] = vars_[ast.unparse(st.targets[0])]      # `self.c = <literal>`
+                found.add(ast.unparse(st.targets[0]))
         missing = set(vars_) - found
         if missing:
             raise AnalysisError('seed variable(s) %s vanished from %s' % (sorted(missing), fname))
@@ -134,6 +138,7 @@ def analyse_function(model, fname, arg_dims_spec, units=BASE_UNITS, seeds=None, 
     ev = DimEval(S, input_dims=ind, param_dims=pd)
     for node, spec in seed_nodes(b, seeds):
         ev.memo[node.nid] = S.from_spec(spec)
+        S.note_prescribed(ev.memo[node.nid])
         ev.seeded = getattr(ev, 'seeded', 0) + 1
     ev.run(b.trace)
     return b, S, ev, ret
